@@ -14,7 +14,7 @@ RULE = (
 ASSUMPTIONS = ["fastcache is not installed in this image, so the cachedsearch wrappers are pass-through (stated, not assumed away: they are still compared call by call)",
                "names/reprs in CountError cases are digit-free so the numbers in the message are unambiguous"]
 GATES = ["mon.C14.findall", "mon.C14.find", "mon.C14.by_attr", "mon.C14.cached", "C14.bound_equal_count", "C14.counterror_min", "C14.counterror_max",
-         "C14.attr_missing_skipped", "C14.find_none", "C14.find_one", "C14.find_many", "C14.none_value_with_missing_attr", "C14.unhashable_value", "C14.after_mutation", "C14.variant.getattr", "C14.variant.property"]
+         "C14.attr_missing_skipped", "C14.find_none", "C14.find_one", "C14.find_many", "C14.none_value_with_missing_attr", "C14.unhashable_value", "C14.after_mutation", "C14.variant.getattr", "C14.variant.property", "C14.variant.valeq", "C14.variant.slots", "C14.variant.unhashable"]
 
 
 def plan(tier, seed, jobs):
@@ -208,6 +208,7 @@ def norm_tags(tags):
 
 
 _VARIANTS = {}
+VARIANTS = ("plain", "getattr", "property", "valeq", "slots", "unhashable")
 
 
 def variant_class(variant):
@@ -235,6 +236,49 @@ def variant_class(variant):
                     raise AttributeError("tag")
 
             _VARIANTS[variant] = PropertyNode
+        elif variant == "valeq":
+            from anytree import NodeMixin
+
+            class ValEqNode(NodeMixin):
+                # value semantics: distinct nodes with the same name compare (and hash) equal
+                def __init__(self, name, **kw):
+                    self.name = name
+                    self.__dict__.update(kw)
+
+                def __eq__(self, other):
+                    return isinstance(other, ValEqNode) and other.name == self.name
+
+                def __hash__(self):
+                    return hash(self.name)
+
+            _VARIANTS[variant] = ValEqNode
+        elif variant == "unhashable":
+            from anytree import NodeMixin
+
+            class UnhashableNode(NodeMixin):
+                __hash__ = None
+
+                def __init__(self, name, **kw):
+                    self.name = name
+                    self.__dict__.update(kw)
+
+                def __eq__(self, other):
+                    return isinstance(other, UnhashableNode) and other.name == self.name
+
+            _VARIANTS[variant] = UnhashableNode
+        elif variant == "slots":
+            from anytree import LightNodeMixin
+
+            class SlotNode(LightNodeMixin):
+                # no instance dict at all; an absent tag is an unset slot
+                __slots__ = ("name", "tag")
+
+                def __init__(self, name, **kw):
+                    self.name = name
+                    for k, v in kw.items():
+                        setattr(self, k, v)
+
+            _VARIANTS[variant] = SlotNode
         else:
             _VARIANTS[variant] = AnyNode
     return _VARIANTS[variant]
@@ -246,7 +290,7 @@ def build(par, tags, variant="plain"):
     for i, p in enumerate(par):
         kw = {"name": "nm"}
         if tags[i] is not ABSENT:
-            if variant == "plain":
+            if variant in ("plain", "valeq", "unhashable", "slots"):
                 kw["tag"] = tags[i]
             else:
                 kw["_store"] = {"tag": tags[i]}
@@ -273,19 +317,20 @@ def run(ctx):
                 tags = [rng.choice([ABSENT, "u", "v", "u", None]) for _ in range(n)]
                 if t == 0:
                     tags = ["u"] * n
-                nodes = build(par, tags)
-                case = {"par": list(par), "tags": tags}
+                variant = "plain" if t == 0 else VARIANTS[(idx + t) % len(VARIANTS)]
+                nodes = build(par, tags, variant)
+                case = {"par": list(par), "tags": tags, "variant": variant}
                 for s in range(n):
                     if not check_tree(ctx, nodes, tags, ch, s, case, bounds_all=(n <= 5 or T)):
                         break
         ctx.exhaustive.append("all ordered trees with %d nodes x every start x all (mincount,maxcount) in {None,0..count+2}^2" % n)
-    nrand = (20000 if T else 100) // ctx.nshards + 1
+    nrand = (20000 if T else 200) // ctx.nshards + 1
     for r in range(nrand):
         rng = ctx.rng("rand", r)
         n = rng.randint(7, 25)
         par, _ = gen.random_tree(rng, n)
         tags = [rng.choice([ABSENT, "u", "v", "w", 1, True, 1.0, None, ["l"], (1, 2), (), NAN]) for _ in range(n)]
-        variant = ("plain", "getattr", "property")[r % 3]
+        variant = VARIANTS[r % len(VARIANTS)]
         ctx.count("C14.variant." + variant)
         nodes = build(par, tags, variant)
         check_tree(ctx, nodes, tags, gen.children_of(par), rng.choice([0, rng.randrange(n)]), {"par": list(par), "tags": tags, "variant": variant}, bounds_all=False)
